@@ -287,7 +287,7 @@ class TwoDResponseContainer(Saveable):
         if self.itype in ["ValueAxis", "TimeAxis", "FrequencyAxis"]:
             axis = self.axis.deepcopy()
         
-            cont = TwoDSpectrumContainer(axis)
+            cont = TwoDSpectrumContainer(axis, dtype=stype)
         
             for val in self.axis.data:
                 sp = self.get_spectrum(val)
